@@ -207,6 +207,17 @@ def gen_scheme(rng, family=None, max_pairs=200):
         b4 = 0 if kind == "induced" else s
         t34 = 0 if kind == "induced" else q
         return {"b": [0, s, p, 0, b4, b5], "t": [q, q, 0, t34, t34, 0], "scale": s, "family": family}
+    if family == "large":
+        # penalties of magnitude 2^20 that differ by a few units: scores around 10^7..10^8 whose differences are tiny
+        # RELATIVELY (exposes relative-tolerance comparisons), still exact in float64
+        M = 1 << 20
+        d = lambda: rng.choice([0, 1, 2, 3, 5])  # noqa: E731
+        b3 = rng.choice([0, M + d()])
+        b4 = max(b3, M + d())
+        t01 = M + d()
+        t34 = M + d()
+        return {"b": [0, M + d(), M + d(), b3, b4, rng.choice([0, M + d()])], "t": [t01, t01, 0, t34, t34, rng.choice([0, M + d()])],
+                "scale": 1, "family": family}
     if family == "cheap_ties":
         # tie cost below half of the inversion cost (p < 0.5): ties inside cycles become optimal
         s = 8
@@ -261,6 +272,10 @@ def name_elements(rng, n, kind):
         return [str(i) for i in range(n)]
     if kind == "str_mixed":
         return ["a%d" % i if i % 2 else str(i) for i in range(n)]
+    if kind == "str_delim":
+        # names that contain the delimiters of the textual form: str(ranking) is then ambiguous
+        pool = ["a", "b", "a}, {b", "c", "b}, {c", "a, b", "{a}", "[a]"]
+        return pool[:n] if n <= len(pool) else pool + ["d%d" % i for i in range(n - len(pool))]
     raise ValueError(kind)
 
 
@@ -269,7 +284,7 @@ def gen_dataset(rng, nmax=7, mmax=5, family=None, kind=None, allow_empty=True, n
     if family is None:
         family = rng.choice(["uniform", "uniform", "near", "sparse", "blocky", "dup", "complete"])
     if kind is None:
-        kind = rng.choice(["int", "int", "int_sparse", "collision", "str", "str_digit", "str_mixed"])
+        kind = rng.choice(["int", "int", "int_sparse", "collision", "str", "str_digit", "str_mixed", "str_delim"])
     n = rng.randint(nmin, nmax)
     m = rng.randint(1, mmax)
     elems = name_elements(rng, n, kind)
